@@ -1,6 +1,8 @@
 import Bec2Verif.Lemmas.Damage
 import Bec2Verif.Lemmas.Writer
 import Bec2Verif.Props.C05
+import Bec2Verif.Props.C16
+import Bec2Verif.Lemmas.MacInj
 /-!
 # C04 — damaged or truncated files are never silently accepted as different content
 
@@ -8,7 +10,11 @@ Proved here (no cryptographic assumption, any plug-in, any key, MAC check on or 
 every proper prefix (every crash point of the writer's binary output stream) and every extension of
 an authentic container is rejected — the well-formed encoding is prefix-free — and a container read
 under *any* key/plug-in is either rejected or has exactly the original bytes' fields.
-Single-byte damage: see `Lemmas/Damage.lean` (theorems below) for the MAC-dependent part.
+Single-byte damage: a change of the stored MAC is always detected; a change inside a MAC'd span is detected unless the MAC
+collides (`*_rejected_or_collision`, any plug-in) — and the CBC-MAC of the bundled AES plug-in cannot collide on a message and
+its copy with one byte replaced (`mac_one_byte_replaced`, from `aes_blockInv`), so for that plug-in such damage is always
+detected (`payload_byte_damage_rejected`, `entry_byte_damage_rejected`): no cryptographic assumption is left for single-byte
+damage inside a payload or a directory entry.
 -/
 namespace Bec2Verif.Props.C04
 open Bec2Verif Bec2Verif.Bf3 Bec2Verif.Spec.Layout
@@ -139,6 +145,33 @@ theorem payload_damage_rejected_or_collision (C : Crypto) (key : Bytes) (pos : N
     obtain ⟨hp, _⟩ := List.append_inj hbs (by omega)
     rw [hp, ← hpm]
     exact hm rfl
+
+/-- **the CBC-MAC of the registered plug-in separates a message from its copy with one byte replaced**: every key, IV,
+length and position; for the bundled AES outright (`aes_blockInv`: AES decryption inverts AES encryption, C16) -/
+theorem mac_one_byte_replaced (key : Bytes) (iv : Option Bytes) (x y : Bytes) (v v' : UInt8) (hne : v ≠ v') (m m' : Bytes)
+    (h : aesCrypto.mac key iv (x ++ v :: y) = .ok m) (h' : aesCrypto.mac key iv (x ++ v' :: y) = .ok m') : m ≠ m' :=
+  mac_one_byte aesCipher Props.C16.aes_blockInv key iv x y v v' hne m m' h h'
+
+/-- **a replaced byte inside a payload is always detected** (bundled AES plug-in, MAC check on): if the directory entry
+carries the MAC of the original payload `x ++ v :: y`, the reader does not accept `x ++ v' :: y` in its place -/
+theorem payload_byte_damage_rejected (key : Bytes) (pos : Nat) (ent : Entry) (em : Bytes) (l : List EntM)
+    (x y rest : Bytes) (v v' : UInt8) (hne : v ≠ v') (comps : List Comp) (r : Bytes)
+    (horig : aesCrypto.mac key none (x ++ v :: y) = .ok ent.pmac) (hlen : (x ++ v' :: y).length = ent.total) :
+    readComps aesCrypto true key ((ent, em) :: l |>.map Prod.fst) pos ((x ++ v' :: y) ++ rest) ≠ .ok (comps, r) := by
+  intro h
+  have := payload_damage_rejected_or_collision aesCrypto key pos ent em l (x ++ v' :: y) rest comps r h hlen
+  exact mac_one_byte_replaced key none x y v v' hne _ _ horig this rfl
+
+/-- **a replaced byte inside the MAC'd span of a directory entry is always detected** (bundled AES plug-in) -/
+theorem entry_byte_damage_rejected (key : Bytes) (i adr : Nat) (re : RawEntry) (hwf : EntryWF aesCrypto true key i adr re)
+    (x y : Bytes) (v v' : UInt8) (hne : v ≠ v') (hbody : entryBody re = x ++ v :: y) :
+    ∀ ent, parseEntry aesCrypto true key (1 + i) ((x ++ v' :: y) ++ re.emac) ≠ .ok (ent, []) := by
+  intro ent h
+  have hcol := body_damage_rejected_or_collision aesCrypto key i adr re hwf (x ++ v' :: y) (by rw [hbody]; simp) ent h
+  have horig := hwf.emacOk rfl
+  rw [hbody] at hcol horig
+  rw [horig] at hcol
+  exact mac_one_byte_replaced key _ x y v v' hne _ _ horig hcol rfl
 
 /-- non-vacuity (test): the 5-byte empty container is well-formed, its 4-byte prefix is rejected -/
 example : ∃ e, fromBinary aesCrypto true (List.replicate 16 0) 5 (([0, 0, 0, 1, 0] : Bytes).take 4) = .error e :=
